@@ -40,8 +40,8 @@ def cases(draw, pools=False):
     o = draw(c10.options(m["n"], len(m["sizes"])))
     o["max_iters"] = min(o["max_iters"], 20 if small else 200)
     nnz = len(m["rows"])
-    cs_pool = [1, 2, 3, 7] if small else [7, 13]
-    chunksize = draw(st.sampled_from(cs_pool + [max(1, nnz - 1), max(1, nnz), nnz + 1, 10**7]))
+    cs_pool = [3, 2, 1, 7, 5] if small else [7, 5, 13]
+    chunksize = draw(st.sampled_from(cs_pool + cs_pool + [max(1, nnz - 1), max(1, nnz), nnz + 1, 10**7]))
     kinds = ["builtin", "eager", "lazy", "adversarial", "adversarial", "adversarial"]
     if pools and draw(st.integers(0, 19)) == 0:
         kinds = ["pool-map", "pool-imap", "pool-imap_unordered"]
@@ -200,4 +200,4 @@ def replay(ctx: Ctx, case):
 
 def run(ctx: Ctx):
     q = ctx.tier == "quick"
-    run_given(ctx, "sched", cases(pools=not q), check_sched, per_shard(ctx, 480 if q else 9000), batch=30)
+    run_given(ctx, "sched", cases(pools=not q), check_sched, per_shard(ctx, 400 if q else 9000), batch=25)
